@@ -244,7 +244,7 @@ pub fn exec(inp: &[u128]) -> (Vec<u128>, String, String) {
         let mut mirror = None;
         let mut hand: Option<Sub> = None;
         let mut hand_set: HashSet<u64> = HashSet::new();
-        let (mut f11, mut sub_after_done) = (false, false);
+        let mut sub_after_done = false;
         let mut tags: Vec<String> = Vec::new();
         let k = case.k.min(case.ops.len());
         for i in 0..=case.ops.len() {
@@ -255,7 +255,6 @@ pub fn exec(inp: &[u128]) -> (Vec<u128>, String, String) {
                     (obs.subscribe(8192), obs.subscribe(8192))
                 };
                 sub_after_done = obs.is_done();
-                f11 = case.incremental && obs.is_done() && !obs.is_empty();
                 if let Some(m) = s2.take_initial() {
                     hand_set = m;
                 }
@@ -372,11 +371,8 @@ pub fn exec(inp: &[u128]) -> (Vec<u128>, String, String) {
             "mid"
         };
         let tag = tags.iter().min_by_key(|t| rank(t)).cloned().unwrap_or_else(|| "none".into());
-        let sig = if f11 {
-            "F11:incr-after-done".to_string()
-        } else {
-            format!("{}{}:{}:{}", if merr == 1 { "maxsize:" } else { "" }, if case.incremental { "incr" } else { "snap" }, pos, tag)
-        };
+        let sig =
+            format!("{}{}:{}:{}", if merr == 1 { "maxsize:" } else { "" }, if case.incremental { "incr" } else { "snap" }, pos, tag);
         (out, sig, verdict)
     })
 }
@@ -407,7 +403,7 @@ fn g_op(r: &mut Rng) -> Op {
     }
 }
 
-fn g_case(r: &mut Rng, allow_late_incremental: bool) -> CaseIn {
+fn g_case(r: &mut Rng) -> CaseIn {
     let ninit = r.below(7);
     let init = (0..ninit).map(|_| r.below(KEYS)).collect();
     let nops = r.range(5, 60) as usize;
@@ -428,27 +424,19 @@ fn g_case(r: &mut Rng, allow_late_incremental: bool) -> CaseIn {
         1 => nops,
         _ => r.range(0, nops as u64) as usize,
     };
-    if incremental && !allow_late_incremental {
-        if let Some(p) = first_done {
-            k = k.min(p);
+    // subscriptions made after done(): moved there explicitly in one case out of five (both modes;
+    // incremental-after-done on a non-empty set was finding F11)
+    if let Some(p) = first_done {
+        if r.chance(1, 5) {
+            k = (p + 1 + r.below((nops - p) as u64) as usize).min(nops);
         }
     }
     let max = if r.chance(1, 8) { r.range(1, 8) } else { 1000 };
     CaseIn { incremental, max, k, init, ops }
 }
 
-pub fn gen(r: &mut Rng, i: usize) -> Vec<Vec<u128>> {
-    let mut v = vec![encode(&g_case(r, false))];
-    if i % 16 == 11 {
-        // known class F11: incremental subscription made after done()
-        let mut c = g_case(r, true);
-        c.incremental = true;
-        if let Some(p) = c.ops.iter().position(|o| matches!(o, Op::Done)) {
-            c.k = (p + 1 + r.below((c.ops.len() - p) as u64) as usize).min(c.ops.len());
-        }
-        v.push(encode(&c));
-    }
-    v
+pub fn gen(r: &mut Rng, _i: usize) -> Vec<Vec<u128>> {
+    vec![encode(&g_case(r))]
 }
 
 pub fn run(seed: u64, count: usize, extra: &[String], out: &mut impl Write) {
